@@ -126,12 +126,12 @@ theorem terminal_when_drained (id : PayId) (s : State) (ops : List Op) (h : Inst
     · have hnr' := hnr ⟨ps, pe, to, rfl⟩
       simp only [PState.parts] at hp hrm
       have hcont : ps.contains p = true := by simpa using hp
-      simp only [stepP, hcont, abandonNow, hrm]
+      simp only [stepP_eq_H, stepPH, hcont, abandonNow, hrm]
       by_cases ha : auto = true <;> by_cases hpm : perm = true <;> simp_all [nFailed, isFailedFor]
     · simp only [PState.parts] at hp hrm
       have hcont : ps.contains p = true := by simpa using hp
-      simp [stepP, hp, abandonNow, hrm, nFailed, isFailedFor]
-  · intro amt pe to; simp [stepP, nFailed, isFailedFor]
+      simp [stepP_eq_H, stepPH, hp, abandonNow, hrm, nFailed, isFailedFor]
+  · intro amt pe to; simp [stepP_eq_H, stepPH, nFailed, isFailedFor]
 
 -- a two-part payment whose parts both fail, the second without a retry left: drained ⇒ PaymentFailed, entry gone
 example : (run init [.send 1 [1, 2], .fail 1 1 true false, .fail 1 2 false false]).2 =
